@@ -19,7 +19,9 @@ LEVEL_TEXT = ('Kernel-checked theorems (Props/C06.v) about the Gallina control s
               'maxiter around the stopping index; an oracle recomputes every claim of the property for all eleven entry '
               'points (incl. the GMRES family and the dispatcher), criteria, dense/sparse/LinearOperator inputs, '
               'preconditioners, real and complex data, n = 1..12.')
-LEVEL_NOTE = ('The GMRES family (outer/inner loops, Givens estimates) has no control model: decided by the oracle only. '
+LEVEL_NOTE = ('The GMRES family has its own control model (Model/GmresCtl.v: outer/inner loops, break on the Givens estimate, '
+              'recomputed norm after every outer iteration) with theorem C06_gmres_status_truthful; it is replayed on observed '
+              'estimates with the tolerance pinned just above an inner estimate (this found F23 in fgmres, repaired).  '
               'Finiteness is an exact-arithmetic statement checked per input.  Negative status codes (breakdown '
               'detection) are outside the property.  Known findings F12-F15 are recorded, F8 repaired.')
 RULE = ('solvers {cg, cr, cgne, cgnr, bicgstab, steepest_descent, minimal_residual} x criteria x {dense, CSR, '
@@ -31,8 +33,8 @@ RULE = ('solvers {cg, cr, cgne, cgnr, bicgstab, steepest_descent, minimal_residu
 RULE += (' '
          'Also: each call repeated with only a callback, only a history list, and neither (same x, status, callbacks, history); fixed ill-conditioned probe (cond 1e8, tol 1e-12): status 0 must survive recomputation of the residual.')
 TRUSTED = ['NumPy/SciPy linear algebra on the oracle side', 'determinism of the solvers for identical inputs']
-PARTIAL = ['gmres_mgs, gmres_householder, gmres, fgmres: oracle only (no control model)']
-REFUTED = ['C06_converged_guess_without_early_exit_refuted (steepest_descent as found; repaired by a fix: commit)']
+PARTIAL = ['GMRES family: the stagnation exit (-1) is an input of the control model, not derived; Arnoldi / Givens numerics are C07']
+REFUTED = ['C06_gmres_count_after_test_refuted (fgmres as found, F23; repaired by a fix: commit)', 'C06_converged_guess_without_early_exit_refuted (steepest_descent as found; repaired by a fix: commit)']
 HEADER = ('From Coq Require Import ZArith List PrimFloat.\nImport ListNotations.\n'
           'Require Import PV.Base.Ops PV.Model.KrylovRun.\n')
 
@@ -262,7 +264,110 @@ def run(ctx):
     for i in bad[:20]:
         case, out = meta[i]
         ctx.disagree('krylov control skeleton (%s)' % case['solver'], case, 'KrylovCtl model predicts otherwise', out)
+    gmres_control(ctx)
     all_solvers(ctx)
+
+
+GHEADER = ('From Coq Require Import ZArith List PrimFloat.\nImport ListNotations.\n'
+           'Require Import PV.Base.Ops PV.Model.GmresRun.\nOpen Scope Z_scope.\n')
+
+
+def gmres_control(ctx):
+    """GMRES family: the control model (outer/inner loops, Givens estimates) replayed on observed norms, with
+    tolerances pinned just above an inner estimate (so that the inner loop breaks there)"""
+    from pyamg import krylov
+    from pyamg.util.linalg import norm as pnorm
+    rng = ctx.sub('gmres-ctl')
+    cases, meta = [], []
+    nsys = 6 if not ctx.thorough else 40
+    for si in range(nsys):
+        n = rng.choice([6, 9, 14])
+        Ad, b = systems(rng, n, False, rng.random() < 0.5)
+        for name in ('gmres_mgs', 'gmres_householder', 'fgmres'):
+            fn = getattr(krylov, name)
+            r = rng.choice([3, 4, 5])
+            m = rng.choice([1, 2, 3])
+            useM = rng.random() < 0.5
+            Md = np.diag(1.0 / np.abs(np.diag(Ad))) if useM else None
+            x0 = np.array([rng.uniform(-1, 1) for _ in range(n)])
+            base = dict(solver=name, n=n, restart=r, maxiter=m, M=useM, A=Ad.tolist(), b=b.tolist(), x0=x0.tolist())
+            ctx.mark(base)
+
+            def run(tol):
+                res, cbs = [], []
+                with warnings.catch_warnings():
+                    warnings.simplefilter('ignore')
+                    x, st = fn(Ad, b, x0=x0.copy(), tol=tol, restart=r, maxiter=m, M=Md, residuals=res,
+                               callback=lambda xk: cbs.append(1))
+                return x, st, [float(v) for v in res], len(cbs)
+            try:
+                _, st_long, full, _ = run(1e-300)
+            except Exception as e:   # noqa
+                ctx.fail(name + '/raises', repr(e), base)
+                continue
+            if st_long < 0 or len(full) != 1 + m * r or not np.all(np.isfinite(full)):
+                continue                       # exact convergence / stagnation exit in the long run: nothing to replay
+            nb = pnorm(b)
+            if name == 'fgmres':
+                scale = nb if nb != 0 else 1.0
+            else:
+                scale = pnorm(Md @ b if Md is not None else b) if nb != 0 else 1.0
+            est = [[full[1 + o * r + i] for i in range(r - 1)] for o in range(m)]
+            tru_full = [full[1 + o * r + r - 1] for o in range(m)]
+            for (o_, i_) in [(o, i) for o in range(m) for i in range(r - 1)]:
+                e = est[o_][i_]
+                tol = np.nextafter(e / scale, 1)
+                k = 0
+                while not (e < tol * scale) and k < 8:
+                    tol = np.nextafter(tol, 1)
+                    k += 1
+                thr = tol * scale
+                if not (e < thr) or full[0] < thr:
+                    continue
+                # the first place where the run with this tolerance leaves the long run must be the break at (o_, i_)
+                earlier = [est[o][i] for o in range(o_ + 1) for i in range(r - 1) if (o, i) < (o_, i_)] + tru_full[:o_]
+                if any(v < thr for v in earlier):
+                    continue
+                case = dict(base, tol=float(tol), break_at=[o_, i_])
+                ctx.mark(case)
+                try:
+                    x, st, res, ncb = run(float(tol))
+                except Exception as e2:   # noqa
+                    ctx.fail(name + '/raises', repr(e2), case)
+                    continue
+                pos = 1 + o_ * r + i_            # index of the recomputed norm appended after the break
+                if st < 0 or len(res) <= pos:
+                    continue
+                after = res[pos]
+                if not (after < thr) and o_ < m - 1:
+                    continue                   # the next outer iteration starts from a state the long run never had
+                ctx.case((name, si, o_, i_), True)
+                ctx.count('gmres-ctl:' + name)
+                ctx.count('gmres-ctl:break-%s' % ('converged' if after < thr else 'not-converged-last-outer'))
+                ts = [[float('nan')] * (r + 1) for _ in range(o_ + 1)]
+                for o in range(o_):
+                    ts[o][r] = tru_full[o]
+                ts[o_][i_ + 1] = after
+                cases.append('(%s, %s, %d%%nat, %d%%nat, %s, %s, (%s, %s, %d%%nat))' % (
+                    cq.fl(thr), cq.fl(full[0]), m, r, cq.lst([cq.fll(row) for row in est[:o_ + 1]]),
+                    cq.lst([cq.fll(row) for row in ts]), cq.z(int(st)), cq.fll(res), ncb))
+                meta.append((case, dict(status=int(st), residuals=res, callbacks=ncb)))
+                # independent restatement for a failing input: status 0 needs the recomputed norm below the threshold, a
+                # positive status is the number of iterates delivered
+                if st == 0 and not (res[-1] < thr):
+                    ctx.fail(name + '/pinned/status0-criterion-not-met', 'status 0 but the last recomputed norm %.17g is not below tol*norm = %.17g'
+                             % (res[-1], thr), case)
+                if st > 0 and st != ncb:
+                    ctx.fail(name + '/pinned/status-not-iteration-count', 'status %d but %d iterates were delivered' % (st, ncb), case)
+    ctx.corr_relations = list(getattr(ctx, 'corr_relations', [])) + [
+        'pyamg.krylov.{gmres_mgs,gmres_householder,fgmres} (status, history, #callbacks) == GmresCtl.gmres_ctl with '
+        'PrimFloat.ltb on the observed estimates / recomputed norms (tolerance pinned above an inner estimate)']
+    bad, errs = cq.run_cases('c06g', GHEADER, 'caseT', 'chk', cases)
+    for e in errs:
+        ctx.disagree('C06 GMRES model evaluation', None, e, None)
+    for i in bad[:20]:
+        case, out = meta[i]
+        ctx.disagree('GMRES control skeleton (%s)' % case['solver'], case, 'GmresCtl model predicts otherwise', out)
 
 
 def all_solvers(ctx):
